@@ -121,6 +121,40 @@ func runC06(c *Ctx) {
 	}
 	prattParselets(c, m)
 	leftOperandPassthrough(c, m)
+	// outside the parselets an expression is always parsed from the lowest level (assignment): a
+	// statement that parses its condition from a higher level cannot hold `x = f()` un-parenthesised
+	{
+		isParselet := map[*ssa.Function]bool{}
+		for _, r := range m.Rows {
+			if r.Prefix != nil {
+				isParselet[r.Prefix] = true
+			}
+			if r.Infix != nil {
+				isParselet[r.Infix] = true
+			}
+		}
+		n := 0
+		for _, cs := range p.CallSitesOf(m.Climb) {
+			f := cs.Parent()
+			if p.inTestFile(f) || isParselet[f] || f == m.Climb {
+				continue
+			}
+			n++
+			arg := cs.Common().Args[1]
+			k, isC := constInt(arg)
+			name := m.PrecNames[k]
+			lowest := isC
+			for v := range m.PrecNames {
+				if v != 0 && v < k { // PrecNone (0) is not an operator level
+					lowest = false
+				}
+			}
+			c.check(lowest, "R1", fmt.Sprintf("statement-level-expression #%d in %s", n, shortName(f)), p.InstrPos(cs), "parsed from the assignment level", "an expression outside the operator parselets is parsed from level "+name+" ("+p.Render(arg)+") instead of the lowest one: operators below that level (assignment) are a syntax error there unless parenthesised")
+		}
+		if n == 0 {
+			c.undecided("R1", "statement-level-expression", "", "no call of the climbing function outside the parselets (expression() is expected)")
+		}
+	}
 	c.shared("R6", "C13/R1", "member access binds tighter than binary `-`: an identifier is a run of letters, digits and '_' only, so `$.a-b` is `($.a) - b` and never the one name `a-b`", keyHas("identifier-class"), runC13)
 	c.shared("R7", "C14/R4", "a root selector means what its text says: it reaches the expression parser unchanged (nothing is pasted in front of a leading parenthesis)", keyHas("root-list-contents"), func(s *Ctx) { rootsPerValue(s, "R4") })
 
